@@ -1440,7 +1440,14 @@ def judgeLine (line : String) : Verdict :=
         else .fail "timeout:status" s!"status {L.status}"
     else
     -- C19: the same call after a different history / with a different scratch fill pattern must give the identical result
-    if mods.contains "@junk" then .skip "junk" else
+    if mods.contains "@junk" then
+      -- interleaved calls that end in errors / timeouts are not judged for their result, but they may not modify their inputs either
+      -- (matrices and parameter objects): the next call of the caller would see the change
+      (match parseTrailer L.trailer with
+       | some tr => if tr.inputModified != 0 && !(op.headD "" == "camionx" || op.take 2 == ["camion", "sign"]) then
+                      .fail "history:input-modified" "a call that ended in an error or timeout modified its input matrix or parameter object"
+                    else .skip "junk"
+       | none => .skip "junk") else
     if expect?.isSome && some (if L.payload.isEmpty then L.status else L.status ++ "~" ++ payloadStr) != expect? then
       .fail "history:differs" s!"result {L.status} {payloadStr} differs from the reference run {expect?.getD ""}"
     else
